@@ -151,7 +151,11 @@ func transactOnConn(ctx context.Context, conn *sql.DB, b beginnable, fn func(con
 
 	defer func() {
 		if p := recover(); p != nil {
-
+			if e := tx.Rollback(); e != nil {
+				err = fmt.Errorf("事务发生恐慌：%v，回滚也失败了：%w", p, e)
+			} else {
+				err = fmt.Errorf("事务发生恐慌：%v", p)
+			}
 		} else if err != nil {
 			if e := tx.Rollback(); e != nil {
 				err = fmt.Errorf("事务失败了：%s，回滚也失败了：%w", err, e)
